@@ -297,31 +297,42 @@ def _replace_data(obj: typing.Any, result: typing.Any) -> typing.Any:
     if not isinstance(result, VectorObject):
         raise TypeError(f"can only assign a single vector to {type(obj).__name__}")
 
+    # compute every new coordinate group before assigning any of them, so that
+    # a conversion that raises leaves ``obj`` unchanged
+    azimuthal, longitudinal, temporal = None, None, None
+
     if isinstance(result, (VectorObject2D, VectorObject3D, VectorObject4D)):
         if isinstance(obj.azimuthal, AzimuthalObjectXY):
-            obj.azimuthal = AzimuthalObjectXY(result.x, result.y)
+            azimuthal = AzimuthalObjectXY(result.x, result.y)
         elif isinstance(obj.azimuthal, AzimuthalObjectRhoPhi):
-            obj.azimuthal = AzimuthalObjectRhoPhi(result.rho, result.phi)
+            azimuthal = AzimuthalObjectRhoPhi(result.rho, result.phi)
         else:
             raise AssertionError(type(obj))
 
     if isinstance(result, (VectorObject3D, VectorObject4D)):
         if isinstance(obj.longitudinal, LongitudinalObjectZ):
-            obj.longitudinal = LongitudinalObjectZ(result.z)
+            longitudinal = LongitudinalObjectZ(result.z)
         elif isinstance(obj.longitudinal, LongitudinalObjectTheta):
-            obj.longitudinal = LongitudinalObjectTheta(result.theta)
+            longitudinal = LongitudinalObjectTheta(result.theta)
         elif isinstance(obj.longitudinal, LongitudinalObjectEta):
-            obj.longitudinal = LongitudinalObjectEta(result.eta)
+            longitudinal = LongitudinalObjectEta(result.eta)
         else:
             raise AssertionError(type(obj))
 
     if isinstance(result, VectorObject4D):
         if isinstance(obj.temporal, TemporalObjectT):
-            obj.temporal = TemporalObjectT(result.t)
+            temporal = TemporalObjectT(result.t)
         elif isinstance(obj.temporal, TemporalObjectTau):
-            obj.temporal = TemporalObjectTau(result.tau)
+            temporal = TemporalObjectTau(result.tau)
         else:
             raise AssertionError(type(obj))
+
+    if azimuthal is not None:
+        obj.azimuthal = azimuthal
+    if longitudinal is not None:
+        obj.longitudinal = longitudinal
+    if temporal is not None:
+        obj.temporal = temporal
 
     return obj
 
